@@ -128,7 +128,7 @@ type epRef struct {
 }
 
 type hop struct {
-	Op      string  `json:"op"` // dep, cfg, eps, pace
+	Op      string  `json:"op"`                // dep, cfg, eps, pace
 	Added   []int   `json:"added,omitempty"`   // dep: service indices
 	Removed []int   `json:"removed,omitempty"` // dep
 	Svc     int     `json:"svc,omitempty"`
@@ -478,7 +478,6 @@ func keys[T any](m map[string]T) []string {
 }
 func mkeys(m map[string]*msvc) []string { return keys(m) }
 
-
 func genEps(t *rapid.T, label string, max int) []epRef {
 	n := rapid.IntRange(0, max).Draw(t, label+".n")
 	var r []epRef
@@ -540,7 +539,9 @@ func TestConverge(t *testing.T) {
 	rapid.Check(t, func(t *rapid.T) {
 		c := genHist(t)
 		uniq := "svc-"
+		vh.CurrentCase(prop, "converge", c)
 		inf, v := checkHist(c, uniq)
+		vh.ClearCurrentCase()
 		if v != nil {
 			vh.Fail(t, vh.Failure{Property: prop, Part: "converge", Signature: v.sig, Message: v.msg, Case: c})
 		}
